@@ -23,11 +23,41 @@ def run(rep):
         rep.violation("machinery-failure", {"what": "driver or harness did not build against the current tree",
                       "theorem_or_correspondence": "build of zydrv/zyh", "log": (prep["drv_out"] + prep["harness_out"])[-3000:]}, no_input=True)
         return
+    translator_report(rep)
     rows, stats = V.run_channel("num", rep.seed, rep.tier)
     def nontrivial(op, impl):
         return impl not in ("err", "bad-op")
     bad_spec, bad_model = V.correspondence(rep, "num", rows, stats, nontrivial=nontrivial)
+    gen_rows = [r for r in rows if r[0].split()[1] in ("gcmp", "gar", "gint")]
+    rep.coverage["translator"]["validation_ops"] = len(gen_rows)
+    rep.coverage["translator"]["validation_mismatches"] = sum(1 for r in gen_rows if r[1] != r[2])
     rep.coverage["exhaustive"] = False
     rep.coverage["rule"] = ("every pair of the boundary grid (see harness/ch_num.go numGrid) under every comparison and arithmetic operator, "
-                            "plus random 64-bit patterns; an op is non-trivial when the implementation answered with a value (not a type error)")
+                            "plus random 64-bit patterns; an op is non-trivial when the implementation answered with a value (not a type error); "
+                            "g-ops: the same grid (plus bools) and random patterns through the TRANSLATED Compare/NumericDo/IntegerDo against the Go originals")
     V.proof_break_resolution(rep, bool(bad_spec))
+
+
+def translator_report(rep):
+    """What the translator did on this tree, asked from the very driver binary the ops run
+    through (`num meta`): functions translated, functions refused (aliases of the committed
+    last-good translation: not an alarm, the g-ops compare them with the code), problems
+    (gating through the theorem translator_problems_empty)."""
+    info = {"translated": None, "refused": [], "problems": []}
+    try:
+        rc, out = V.sh([V.ZYDRV], stdin="num meta\n", timeout=60)
+        line = out.split("\n")[0].split("\t")[0]
+        head, _, tail = line.partition(" | ")
+        for kv in head.split():
+            k, _, v = kv.partition("=")
+            if k == "translated":
+                info["translated"] = int(v)
+        refused, _, problems = tail.partition(" | ")
+        info["refused"] = [x for x in refused.split(" ;; ") if x.strip()]
+        info["problems"] = [x for x in problems.split(" ;; ") if x.strip()]
+    except Exception as e:            # the driver did not build: reported by the caller
+        info["error"] = str(e)[:200]
+    rep.coverage["translator"] = info
+    if info["refused"]:
+        rep.assumptions.append("the translator refused %d function(s) on this tree (%s): for them the T1 tie is the committed last-good translation Model/NumGoGood.lean, compared with the Go code by the g-ops of channel `num` (T2) — not an alarm by itself"
+                               % (len(info["refused"]), "; ".join(info["refused"])[:600]))
